@@ -205,6 +205,9 @@ def leaf_f64x(k):
 
 for _ty in NUM_TABLES: TYPES[_ty] = (_ty, "generic", 1, num_leaf(_ty))
 TYPES["f32"] = ("f32", "generic", 1, leaf_f32)
+TYPES["T2f"] = ("Tuple2<f32, i32>", "tuple", 2, None)        # round 5: f32 components next to a midpoint (leaves built by add_f32_literals)
+TYPES["T3f"] = ("Tuple3<i32, f32, f32>", "tuple", 2, None)
+TYPES["ListF32"] = ("List<f32>", "list", 1, None)
 TYPES["f64x"] = ("f64", "generic", 1, leaf_f64x)
 
 
@@ -568,6 +571,19 @@ def add_f32_literals():
     fl = [(f"{v}i64", str(v), rust_f32_debug(f32_round_bits(Fraction(v)))) for v in f32_int_tokens("i64", (54, 57, 62))]
     tk = [l[0] for l in fl]
     add("f32", "flat", [6], [1, 6], fl, f"array_flat!(f32, {', '.join(tk)})", "vec![vec![" + "".join(f"{t}," for t in tk) + "],]", note="integer items next to a midpoint, flat form", toks=tk)
+    # f32 components of pairs / triples and f32 list items next to a midpoint (Tuple2::from_str / List::from_str parse the component text)
+    w = [f32_leaf(t[0]) for t in toks if t[2]]
+    def t2f(k): a = w[k % len(w)]; return (f"({a[0]}, {k})", f"({a[1]}, {k})", f"Tuple2({a[2]}, {k})")
+    def t3f(k): a, b = w[(2 * k) % len(w)], w[(2 * k + 1) % len(w)]; return (f"({k}, {a[0]}, {b[0]})", f"({k}, {a[1]}, {b[1]})", f"Tuple3({k}, {a[2]}, {b[2]})")
+    def lf32(k):
+        it = [w[(3 * k + j) % len(w)] for j in range(1 + k % 3)]
+        return ("vec![" + ", ".join(x[0] for x in it) + "]", "[" + ", ".join(x[1] for x in it) + "]", "List([" + ", ".join(x[2] for x in it) + "])")
+    for ty, lf, shs in (("T2f", t2f, ([6], [2, 3])), ("T3f", t3f, ([5], [2, 1, 2])), ("ListF32", lf32, ([4], [2, 2]))):
+        base = 0
+        for sh in shs:
+            add_nested(ty, sh, [lf(base + k) for k in range(prod(sh))], note="f32 components / items next to the midpoint of two adjacent f32 values"); base += prod(sh)
+        lv = [lf(20 + k) for k in range(3)]; tk = [l[0] for l in lv]
+        add(ty, "flat", [3], [3, 1], lv, f"array_flat!({TYPES[ty][0]}, {', '.join(tk)})", "vec![" + "".join(f"vec![{t}]," for t in tk) + "]", note="f32 components / items next to a midpoint, flat form")
     # out of scope, recorded: a token on the OTHER side of the midpoint than the shortest text of its f64 value.  The item expression is
     # an f64 (Rust types the token before the macro sees anything) whose value is the midpoint itself; no f32 is nearest to it
     for a in (0x3f800000, 0x40490fdb):
@@ -701,6 +717,56 @@ def add_impure(ty, kind, form, sh):
     add(ty, form, shape, nest_shape, leaves, f"{prelude} {macro}", dbg, note=f"impure items ({kind}): each evaluated exactly once, in reading order; afterwards {final}", run=run)
 
 
+def add_boundary_literals():
+    """class 16 for the literal front end (text -> float is value-sensitive): the mathematical constants, integer-valued floats and
+    2^k with one ulp on each side at the edges of the exponent ranges, as f64 items and as f32-suffixed items"""
+    import math
+    consts = [math.e, math.pi, math.log(2), math.log(10), 1 / math.log(2), math.sqrt(2), math.pi / 2, math.tau, 2.220446049250313e-16, 0.1, 0.2, 0.3, 1 / 3,
+              1e15, 1e16, 1e17, 1e21, 1e22, 1e23, 1e-4, 1e-5, 1e-7, 4503599627370496.5, 9007199254740993.0]
+    f64s = []
+    for c in consts:
+        f64s += [c, -c, 1 / c]
+    for k in (-1074, -1073, -1023, -1022, -1021, -600, -150, -149, -127, -126, -53, -52, -24, -23, -1, 0, 1, 23, 24, 31, 32, 52, 53, 63, 64, 127, 128, 600, 1022, 1023):
+        b = 2.0 ** k
+        f64s += [b, math.nextafter(b, math.inf), math.nextafter(b, -math.inf)]
+    ints = sorted(set(list(range(-20, 21)) + [s * (2 ** j + d) for s in (1, -1) for j in range(5, 11) for d in (-1, 0, 1)] + [1000, -1000, 1099, -1099, 1100, -1100, 255, 256, 257, -255]))
+    ints = [i for i in ints if -1100 <= i <= 1100]
+    f64s += [float(i) if i != 0 else -0.0 for i in ints]
+    f64s = [x for x in f64s if not ambiguous_repr(x) and x not in (math.inf, -math.inf)]
+    def lf64(x):
+        d = rust_f64_debug(x)
+        tok = d.replace("e", "e") if ('.' in d or 'e' in d) else d + ".0"
+        return (tok, d, d)
+    leaves = [lf64(x) for x in f64s]
+    shapes = ([16], [4, 5], [2, 3, 4], [30], [3, 9], [2, 2, 7])
+    pos = i = 0
+    while pos < len(leaves):
+        sh = shapes[i % len(shapes)]; i += 1; n = prod(sh)
+        chunk = [leaves[(pos + j) % len(leaves)] for j in range(n)]
+        src = nested_src(sh, [l[0] for l in chunk])
+        add("f64x", "nested", sh, [1] + list(sh), chunk, f"array!(f64, {src})", f"vec![{src},]", note="f64 items: constants, integer-valued floats, 2^k with one ulp on each side")
+        pos += n
+    # f32: the f32 nearest to each of the constants / integers, 2^k with one ulp on each side for the f32 exponent range; f32-suffixed tokens
+    bits = []
+    for c in consts + [float(i) for i in ints]:
+        b = f32_round_bits(Fraction(c))
+        if (b & 0x7fffffff) < 0x7f800000: bits += [b]
+    for k in (-149, -148, -127, -126, -125, -24, -23, -1, 0, 1, 23, 24, 25, 31, 32, 63, 64, 126, 127):
+        b = f32_round_bits(Fraction(2) ** k)
+        bits += [b, b + 1] + ([b - 1] if b > 0 else [])
+    l32 = []
+    for b in bits:
+        d = rust_f32_debug(b)
+        l32.append((d + "f32", d, d))
+    pos = i = 0
+    while pos < len(l32):
+        sh = shapes[(i + 1) % len(shapes)]; i += 1; n = prod(sh)
+        chunk = [l32[(pos + j) % len(l32)] for j in range(n)]
+        tk = [l[0] for l in chunk]; src = nested_src(sh, tk)
+        add("f32", "nested", sh, [1] + list(sh), chunk, f"array!(f32, {src})", f"vec![{src},]", note="f32 items: constants, integer-valued floats, 2^k with one ulp on each side", toks=tk)
+        pos += n
+
+
 def build_r5():
     n_tok, n_wit = add_f32_literals()
     n0 = len(LITS)
@@ -718,7 +784,9 @@ def build_r5():
         for sh in ([3], [2, 2], [2, 1, 2]): add_impure(ty, "typed", "nested", sh)
         if ty not in ("List", "ListS"): add_impure(ty, "typed", "args", 3)
         add_impure(ty, "typed", "flat", 2 + ti % 2)
-    return n_tok, n_wit, len(LITS) - n0
+    n_imp = len(LITS) - n0
+    add_boundary_literals()
+    return n_tok, n_wit, n_imp
 
 
 # ---- macros that stand for functions: (macro expression, function expression, element type)
@@ -830,6 +898,26 @@ def build_ctors_r5():
         ci(ty, "let mut it = 3usize..;", f"array_identity!({ty}, it.next().unwrap())", "it.next() == Some(4)", f"Array::<{ty}>::identity(3)")
         ci(ty, "let mut n = 0i32;", f"array_arange!({ty}, {{ n += 1; n as {ty} }}, {{ n += 1; (n * 5) as {ty} }})", "n == 2", f"Array::<{ty}>::arange(1 as {ty}, 10 as {ty}, None)")
         ci(ty, "let mut n = 0i32;", f"array_arange!({ty}, {{ n += 1; n as {ty} }}, {{ n += 1; (n * 5) as {ty} }}, {{ n += 1; n as {ty} }})", "n == 3", f"Array::<{ty}>::arange(1 as {ty}, 10 as {ty}, Some(3 as {ty}))")
+    # class 20: more than 2^24 elements (u8), compared in place by `giant_pair`
+    def cg(ty, mac, fun): CTORS.append((ty, mac, fun, None, f"giant_pair::<{ty}, _, _>(|| {mac}, || {fun})"))
+    for dims in ("16777217", "16777216", "4097, 4097", "2, 8388609", "257, 257, 257"):
+        cg("u8", f"array_zeros!(u8, {dims})", f"Array::<u8>::zeros(vec![{dims}])")
+        cg("u8", f"array_ones!(u8, {dims})", f"Array::<u8>::ones(vec![{dims}])")
+        cg("u8", f"array_full!(u8, vec![{dims}], 7)", f"Array::<u8>::full(vec![{dims}], 7)")
+    cg("u8", "array_eye!(u8, 4097)", "Array::<u8>::eye(4097, Some(4097), Some(0))")
+    cg("u8", "array_eye!(u8, 4096, 4097, 1)", "Array::<u8>::eye(4096, Some(4097), Some(1))")
+    cg("u8", "array_identity!(u8, 4097)", "Array::<u8>::identity(4097)")
+    # class 21: integer constructor arguments whose span is >= 2^32 (the count stays small)
+    def c(ty, m, f): CTORS.append((ty, m, f))
+    for ty, sfx in (("i64", ""), ("u64", ""), ("f64", ".0")):
+        for a, b, st in ((0, 10 ** 10, 10 ** 9), (0, 2 ** 32, 2 ** 29), (1, 2 ** 32 + 1, 2 ** 30), (2 ** 32 - 1, 2 ** 33 + 1, 2 ** 31), (0, 2 ** 62, 2 ** 59), (10 ** 18, 10 ** 18 + 10, 1),
+                          (2 ** 53, 2 ** 53 + 12, 2), (5, 10 ** 12, 4294967295), (0, 4294967296 * 7, 4294967296), (2 ** 40 + 1, 2 ** 40 + 2 ** 33, 2 ** 32 - 1)):
+            A, B, S = (f"{a}{sfx}", f"{b}{sfx}", f"{st}{sfx}")
+            c(ty, f"array_arange!({ty}, {A}, {B}, {S})", f"Array::<{ty}>::arange({A}, {B}, Some({S}))")
+        c(ty, f"array_arange!({ty}, 10000000000{sfx}, 10000000007{sfx})", f"Array::<{ty}>::arange(10000000000{sfx}, 10000000007{sfx}, None)")
+    for a, b, st in ((-10 ** 10, 10 ** 10, 4 * 10 ** 9), (-2 ** 62, 2 ** 62, 2 ** 60), (-2 ** 32, 1, 2 ** 29)):
+        c("i64", f"array_arange!(i64, {a}, {b}, {st})", f"Array::<i64>::arange({a}, {b}, Some({st}))")
+        c("f64", f"array_arange!(f64, {a}.0, {b}.0, {st}.0)", f"Array::<f64>::arange({a}.0, {b}.0, Some({st}.0))")
     wit = [t[0] for t in f32_tokens() if t[2]]
     for t in wit[:10]:
         CTORS.append(("f32", f"array_single!(f32, {t})", f"Array::<f32>::single({t})"))
@@ -872,8 +960,9 @@ def main():
     for j, ct in enumerate(CTORS):
         ty, mac, fun = ct[:3]
         m = (len(LITS) + j) % NMOD
-        mexpr = ct[3] if len(ct) > 3 else f"obs::<{ty}, _>(|| {mac})"
-        mods[m].append(f"#[inline(never)] pub fn c{j}() -> (Obs, Obs) {{ ({mexpr}, obs::<{ty}, _>(|| {fun})) }}\n")
+        mexpr = ct[3] if len(ct) > 3 and ct[3] else f"obs::<{ty}, _>(|| {mac})"
+        body = ct[4] if len(ct) > 4 else f"({mexpr}, obs::<{ty}, _>(|| {fun}))"
+        mods[m].append(f"#[inline(never)] pub fn c{j}() -> (Obs, Obs) {{ {body} }}\n")
         ctab.append(f"    Ctor {{ id: {j}, ty: {rs_str(ty)}, mac: {rs_str(mac)}, fun: {rs_str(fun)}, run: m{m:02}::c{j} }},\n")
     for m in range(NMOD):
         with open(os.path.join(OUT, f"m{m:02}.rs"), "w") as f:
@@ -881,7 +970,7 @@ def main():
     with open(os.path.join(OUT, "mod.rs"), "w") as f:
         f.write("// generated by harness/gen_c18_literals.py — do not edit\n"
                 "//! the literal programs of C18: every entry expands the real macros at compile time\n"
-                "#![allow(unused_imports, clippy::all)]\nuse super::{obs, canon, once, Obs};\nuse arrharness::*;\n\n")
+                "#![allow(unused_imports, clippy::all)]\nuse super::{obs, canon, once, giant_pair, Obs};\nuse arrharness::*;\n\n")
         for m in range(NMOD): f.write(f"pub mod m{m:02};\n")
         f.write("\npub struct Lit { pub id: usize, pub ty: &'static str, pub kind: &'static str, pub form: &'static str, pub scope: &'static str,\n"
                 "    pub note: &'static str, pub src: &'static str, pub shape: &'static [usize], pub nest_shape: &'static [usize],\n"
